@@ -101,6 +101,12 @@ SUITES["sigterm"] = dict(
     batches={"quick": 8, "thorough": 16}, timeout={"quick": 300, "thorough": 1200},
 )
 
+SUITES["race"] = dict(
+    test="TestRace", coq_module="Cases.ProbeCase", case_type="rc_case", eval="eval_rc_case", binary="harness.race.test",
+    cols=["diff", "mon_c12_no_race", "mon_c12_no_panic", "mon_c12_no_deadlock", "nt_c12"],
+    batches={"quick": 8, "thorough": 16}, timeout={"quick": 600, "thorough": 3000},
+)
+
 PROPS = {
     "C09": dict(
         props_file="Props/C09.v",
@@ -477,6 +483,29 @@ PROPS["C19"] = dict(
                "binary), Model/Shutdown.v.",
     trusted_base=["Model/Shutdown.v (hand-written; tied by the probe suite)"],
     assumptions=["probe results are the four scripted classes", "loopback sockets, real time for the sigterm suite (slack 500 ms)"],
+)
+
+PROPS["C12"] = dict(
+    props_file="Props/C12.v", gen=["Access"],
+    suites=[dict(suite="race", corr=[], monitors=["mon_c12_no_race", "mon_c12_no_panic", "mon_c12_no_deadlock"], classifiers={}, nontrivial="nt_c12")],
+    rule="race suite: the real balancer built with the race detector; 8 / 16 / 32 / 64 goroutines run a mix of client traffic (ok / 5xx / "
+         "unreachable / aborted mid-body), admin API calls (list, add, remove, strategy switch over HTTP), metrics and health reads, "
+         "ListBackends, ejections and lazy expiries, with active / passive checks, breaker, limiter and websocket pool switched on and off, "
+         "for every strategy; Stop arrives twice while everything runs; a DATA RACE report, a panic or a watchdog time-out fails the case "
+         "(the replay names the racing functions). Table: every field access and lock acquisition of loadbalancer, metrics, "
+         "circuitbreaker and ratelimiter; non-trivial = >= 8 goroutines; distinct = by case hash",
+    level_text="PARTIAL. Theorems: lock discipline (every pair of conflicting access sites shares a lock one side holds in write mode) implies "
+               "that no interleaving of any number of threads reaches a state with two conflicting accesses pending (proved once, generic); the "
+               "access table REGENERATED from the current source is disciplined and its acquired-while-holding relation is acyclic (decided by "
+               "computation on the finite generated table), hence no data race between table sites and no lock cycle. The lockset computation "
+               "of the translator is a static approximation and the Go memory model is assumed; channel / WaitGroup ordering is not modelled. "
+               "Implementation side: the race detector's happens-before analysis on a concurrent soak.",
+    level_note="Trusted: Coq kernel, go2coq/access (go/packages + go/types; branch join by intersection, entry locksets from call sites, interface "
+               "and callback resolution, ownership table of goroutine-local objects: sync.Pool / GetMetrics copies, per-request responseWriter), "
+               "the Go race detector, harness.",
+    trusted_base=["go2coq/access translator (Gen/Access.v) incl. its ownership table", "Go race detector (ThreadSanitizer runtime)"],
+    assumptions=["sync.Mutex / RWMutex give mutual exclusion, sync/atomic operations are atomic (Go memory model)",
+                 "constructors (New*, create*, setup*) run before the object is shared"],
 )
 
 # properties not claimed, each with a one-line reason (kept current as checks are added)
